@@ -87,6 +87,19 @@ def doc_cases(ctx, budget):
     for i in range(ctx.n(600, 40000) * budget):
         root = ctx.rng.choice(gen.ROOTS7)
         out.append((gen.any_text(ctx.rng, root), root, ctx.rng.choice(PREFIXES)))
+    # attributes that are data, not naming: a name / eId / id / class attribute written on every kind of keyword, with values that would be
+    # poison in an id (blanks, names of elements that carry no id, nothing)
+    shapes = [('debate', 'DEBATESECTION%s 1 - Question time\n  QUESTION%s 1\n    FROM Hon. Member\n    Why?\n'), ('debate', 'DEBATESECTION%s\n  SPEECH%s\n    FROM The Speaker\n    Good morning.\n'),
+              ('act', 'PART%s 1 - h\n  SEC%s 2.\n    SUBSEC%s (a)\n      text\n'), ('act', 'SEC 1\n  ITEMS%s\n    ITEM%s (a)\n      x\n  TABLE%s\n    TR\n      TC%s\n        c\n'),
+              ('statement', 'PREFACE%s\n  P%s x\nBODY\n  QUOTE%s\n    q\n  BLOCKS%s\n    b\nSCHEDULE%s s\n  CROSSHEADING%s c\n'), ('judgment', 'INTRODUCTION%s\n  x\nDECISION%s\n  PARA%s 1.\n    y\n'),
+              ('debateReport', 'ADDRESS%s\n  FROM x\n  y {{inline%s z}} {{abbr%s a}}\n'), ('doc', 'HCONTAINER%s 1\n  x\nDIVISION%s A\n  y\n')]
+    for root, shape in shapes:
+        for nm in ('name', 'eId', 'id', 'class'):
+            for v in ('question time', 'heading', 'num', 'content', '', 'a  b', 'intro', 'dbsect', 'sec_1'):
+                at = '{%s %s}' % (nm, v)
+                k = shape.count('%s')
+                for i in range(k):
+                    out.append((shape % tuple(at if j == i else '' for j in range(k)), root, PREFIXES[(i + len(v)) % len(PREFIXES)]))
     return out
 
 def _doc_oracle(args):
